@@ -83,6 +83,7 @@ type jPBar struct {
 type jPre struct {
 	Bars     []jPBar
 	DofCount int
+	OwnWeight bool
 	NodeDofs map[string][3]int
 	Panic    string `json:",omitempty"`
 }
@@ -125,32 +126,36 @@ func link3(c *structure.Constraint) [3]bool {
 	return [3]bool{!c.AllowsDispX(), !c.AllowsDispY(), !c.AllowsRotation()}
 }
 
+func barOf(el *structure.Element) jBar {
+	b := jBar{
+		ID: el.GetID(), N1: el.StartNodeID(), N2: el.EndNodeID(),
+		L1: link3(el.StartLink()), L2: link3(el.EndLink()),
+		E: fs(el.Material().YoungMod), A: fs(el.Section().Area), I: fs(el.Section().IStrong),
+		S: fs(el.Section().SStrong), Rho: fs(el.Material().Density),
+		Mat: el.Material().Name, Sec: el.Section().Name,
+		Len: fs(el.Length()), C: fs(el.RefFrame().Cos()), S_: fs(el.RefFrame().Sin()),
+		X1: fs(el.StartPoint().X()), Y1: fs(el.StartPoint().Y()),
+		X2: fs(el.EndPoint().X()), Y2: fs(el.EndPoint().Y()),
+		IsAxial: el.IsAxialMember(), HasLoads: el.HasLoadsApplied(),
+		MatAll: [6]string{fs(el.Material().Density), fs(el.Material().YoungMod), fs(el.Material().ShearMod),
+			fs(el.Material().PoissonRatio), fs(el.Material().YieldStrength), fs(el.Material().UltimateStrength)},
+		SecAll: [5]string{fs(el.Section().Area), fs(el.Section().IStrong), fs(el.Section().IWeak),
+			fs(el.Section().SStrong), fs(el.Section().SWeak)},
+	}
+	for _, l := range el.ConcentratedLoads {
+		b.CL = append(b.CL, jCLoad{string(l.Term), l.IsInLocalCoords, fs(l.T.Value()), fs(l.Value)})
+	}
+	for _, l := range el.DistributedLoads {
+		b.DL = append(b.DL, jDLoad{string(l.Term), l.IsInLocalCoords,
+			fs(l.StartT.Value()), fs(l.StartValue), fs(l.EndT.Value()), fs(l.EndValue)})
+	}
+	return b
+}
+
 func dumpBars(str *structure.Structure) []jBar {
 	var out []jBar
 	for _, el := range str.Elements() {
-		b := jBar{
-			ID: el.GetID(), N1: el.StartNodeID(), N2: el.EndNodeID(),
-			L1: link3(el.StartLink()), L2: link3(el.EndLink()),
-			E: fs(el.Material().YoungMod), A: fs(el.Section().Area), I: fs(el.Section().IStrong),
-			S: fs(el.Section().SStrong), Rho: fs(el.Material().Density),
-			Mat: el.Material().Name, Sec: el.Section().Name,
-			Len: fs(el.Length()), C: fs(el.RefFrame().Cos()), S_: fs(el.RefFrame().Sin()),
-			X1: fs(el.StartPoint().X()), Y1: fs(el.StartPoint().Y()),
-			X2: fs(el.EndPoint().X()), Y2: fs(el.EndPoint().Y()),
-			IsAxial: el.IsAxialMember(), HasLoads: el.HasLoadsApplied(),
-			MatAll: [6]string{fs(el.Material().Density), fs(el.Material().YoungMod), fs(el.Material().ShearMod),
-				fs(el.Material().PoissonRatio), fs(el.Material().YieldStrength), fs(el.Material().UltimateStrength)},
-			SecAll: [5]string{fs(el.Section().Area), fs(el.Section().IStrong), fs(el.Section().IWeak),
-				fs(el.Section().SStrong), fs(el.Section().SWeak)},
-		}
-		for _, l := range el.ConcentratedLoads {
-			b.CL = append(b.CL, jCLoad{string(l.Term), l.IsInLocalCoords, fs(l.T.Value()), fs(l.Value)})
-		}
-		for _, l := range el.DistributedLoads {
-			b.DL = append(b.DL, jDLoad{string(l.Term), l.IsInLocalCoords,
-				fs(l.StartT.Value()), fs(l.StartValue), fs(l.EndT.Value()), fs(l.EndValue)})
-		}
-		out = append(out, b)
+		out = append(out, barOf(el))
 	}
 	return out
 }
@@ -158,6 +163,7 @@ func dumpBars(str *structure.Structure) []jBar {
 func dumpPre(p *preprocess.Structure) jPre {
 	var out jPre
 	out.DofCount = p.DofsCount()
+	out.OwnWeight = p.IncludesOwnWeight()
 	out.NodeDofs = map[string][3]int{}
 	for _, n := range p.GetAllNodes() {
 		out.NodeDofs[n.GetID()] = n.DegreesOfFreedomNum()
